@@ -87,6 +87,7 @@ def run(ctx):
     corr_bad_asis = 0
     judge_bad = lossy_cases = lossy_tags = skipped = ign_cases = 0
     multi = nonascii = 0
+    capi_cmp = capi_bad = late_cases = 0
     names_total = arr_bad = arr_bad_cases = 0
     arr_bad_ids = []
     for line in out.split("\n"):
@@ -113,6 +114,14 @@ def run(ctx):
         multi += int(kv.get("multi", 0))
         nonascii += int(kv.get("nonascii", 0))
         skipped += int(kv.get("skipped", 0))
+        late_cases += int(kv.get("late", 0))
+        if kv.get("capi", "skipped") != "skipped":
+            capi_cmp += 1
+            if kv["capi"] != "ok":
+                capi_bad += 1
+                ctx.violation("judge", "C18 C API (c_lib.rs ts_tagger_tag) disagrees with the Rust API on the same input: " + kv["capi"][:200],
+                              {"case": cid, "spec": specs.get(cid, ""), "result": kv},
+                              fingerprint={"queryset": qid, "clause": "capi"})
         names_total += int(kv.get("names", 0))
         if int(kv.get("arrbad", 0)) > 0:
             arr_bad += int(kv["arrbad"])
@@ -162,13 +171,16 @@ def run(ctx):
         "arrival_order": {"match_names": names_total,
                           "names_ending_before_an_earlier_name_starts": arr_bad,
                           "sources_violating_the_hypothesis": arr_bad_cases, "which": arr_bad_ids[:10],
+                          "sources_with_a_late_arrival(noLate=false)": late_cases,
                           "meaning": "hypothesis of queue_sorted_dedup_partial / queue_lowest_pattern_run_partial measured on the real "
                                      "QueryCursor::matches streams of all explored sources"},
+        "c_api": {"compared": capi_cmp, "equal": capi_cmp - capi_bad,
+                  "what": "ts_tagger_new/add_language/tag + ts_tags_buffer_* read through the C struct layout of tags.h vs the Rust iterator"},
         "explorer_summary": summary,
         "model_variants_matching_all_cases": matching,
         "correspondence": {"compared": corr_cases, "equal": corr_cases - (0 if matching else corr_bad_asis)},
         "judge": {"evaluated": evals, "passed": evals - judge_bad - lossy_cases},
-        "impl_vs_judge_failures": judge_bad + lossy_cases,
+        "impl_vs_judge_failures": judge_bad + lossy_cases + capi_bad,
         "judge_failures_by_kind": {"ignored-emitted": ign_cases, "utf16-lossy(cases/tags)": [lossy_cases, lossy_tags],
                                    "other": judge_bad - ign_cases},
         "model_vs_impl_disagreements": 0 if matching else corr_bad_asis,
